@@ -391,6 +391,9 @@ func (r *Repository) ReconcileLocalRSLWithRemote(ctx context.Context, remoteName
 
 	// Apply local only entries on top of the new local RSL
 	// localOnlyEntries is in reverse order
+	// reappliedEntryIDs maps a local only entry to its reapplied counterpart
+	// so that annotations continue to refer to the entries they were for
+	reappliedEntryIDs := map[string]githash.Hash{}
 	for i := len(localOnlyEntries) - 1; i >= 0; i-- {
 		slog.Debug(fmt.Sprintf("Reapplying entry '%s'...", localOnlyEntries[i].GetID().String()))
 
@@ -403,11 +406,28 @@ func (r *Repository) ReconcileLocalRSLWithRemote(ctx context.Context, remoteName
 			if err := rsl.NewReferenceEntry(entry.RefName, entry.TargetID).Commit(r.r, sign); err != nil {
 				return fmt.Errorf("unable to reapply reference entry '%s': %w", entry.ID.String(), err)
 			}
+		case *rsl.PropagationEntry:
+			if err := rsl.NewPropagationEntry(entry.RefName, entry.TargetID, entry.UpstreamRepository, entry.UpstreamEntryID).Commit(r.r, sign); err != nil {
+				return fmt.Errorf("unable to reapply propagation entry '%s': %w", entry.ID.String(), err)
+			}
 		case *rsl.AnnotationEntry:
-			if err := rsl.NewAnnotationEntry(entry.RSLEntryIDs, entry.Skip, entry.Message).Commit(r.r, sign); err != nil {
+			rslEntryIDs := make([]githash.Hash, 0, len(entry.RSLEntryIDs))
+			for _, rslEntryID := range entry.RSLEntryIDs {
+				if reappliedEntryID, has := reappliedEntryIDs[rslEntryID.String()]; has {
+					rslEntryID = reappliedEntryID
+				}
+				rslEntryIDs = append(rslEntryIDs, rslEntryID)
+			}
+			if err := rsl.NewAnnotationEntry(rslEntryIDs, entry.Skip, entry.Message).Commit(r.r, sign); err != nil {
 				return fmt.Errorf("unable to reapply annotation entry '%s': %w", entry.ID.String(), err)
 			}
 		}
+
+		reappliedEntryID, err := r.r.GetReference(rsl.Ref)
+		if err != nil {
+			return fmt.Errorf("unable to get current tip of the RSL: %w", err)
+		}
+		reappliedEntryIDs[localOnlyEntries[i].GetID().String()] = reappliedEntryID
 
 		if slog.Default().Enabled(ctx, slog.LevelDebug) {
 			currentTip, err := r.r.GetReference(rsl.Ref)
